@@ -3,7 +3,13 @@
 use crate::ConcurrencyAlgorithm;
 use std::future::Future;
 use std::pin::Pin;
+#[cfg(not(feature = "verif-hooks"))]
 use std::sync::atomic::{AtomicUsize, Ordering};
+// verification hook: the limiter's counters become scheduling points of an external harness
+#[cfg(feature = "verif-hooks")]
+use std::sync::atomic::Ordering;
+#[cfg(feature = "verif-hooks")]
+use tower_resilience_core::verif::atomic::AtomicUsize;
 use std::sync::Arc;
 use std::task::{Context, Poll};
 use std::time::Instant;
